@@ -8,8 +8,10 @@ LEVEL_TEXT = ("The contract ParallelFor (exactly-once per index, nothing for n <
               "all effects visible at return, nested calls inside their parent invocation) is model-checked on a bounded instance (operational rules "
               "imply the declarative statement).  Every scenario of the TLC-generated scenario space (8 index types x boundary task counts x 3 APIs x "
               "block sizes x nesting x body cost x pre-filled task queue) is executed on the real code of all four tasking backends with several "
-              "thread counts; every recorded execution (call / per-index begin / end / return events stamped by one atomic counter, cells read back by "
-              "the caller) is validated by TLC against the contract.  The Internal backend's scheduler and its lock-free pipe have mechanism models "
+              "thread counts, on the Internal backend also under seeded schedule perturbation through guarded hook points of the scheduler and in an "
+              "oversubscribed stress plan (16 tasking threads on 4 CPUs, thousands of rounds; the first rounds and every round whose read-back is not "
+              "'each cell once' are recorded); every recorded execution (call / per-index begin / end / return events stamped by one atomic counter, "
+              "cells read back by the caller) is validated by TLC against the contract.  The Internal backend's scheduler and its lock-free pipe have mechanism models "
               "(spec/tasking/EnkiTS.tla, Pipe.tla) checked by TLC under all interleavings for small bounds, the pipe additionally bound to the real "
               "LockLessMultiReadPipe by trace validation.")
 LEVEL_NOTE = ("task counts above 2^31 are not exercised (the Internal backend narrows to int); schedules of TBB / OpenMP are whatever the runtime "
